@@ -603,6 +603,7 @@ static void init(const sk_opts* o)
 	add_table(fc_misc, fc_misc_n);
 	add_table(fc_bign, fc_bign_n);
 	add_table(fc_proto, fc_proto_n);
+	add_table(fc_math, fc_math_n);
 	if (!strncmp(v, "alloc", 5)) mode = 0;
 	else if (!strncmp(v, "badarg", 6)) mode = 1;
 	else if (!strncmp(v, "wipe", 4)) mode = 2;
@@ -631,6 +632,8 @@ static void run(uint64_t seed, const sk_mask* mask, sk_result* out)
 			continue;
 		}
 		if (mode == 2 && !(d->flags & FC_SECRET))
+			continue;
+		if (mode != 3 && (d->flags & FC_MATH))
 			continue;
 		if (mode == 1 && !d->bad)
 			continue;
